@@ -331,6 +331,10 @@ fn bucket_entries(bucket: &Path) -> std::io::Result<Vec<SerializableMetadata>> {
         .map(|file| {
             BufReader::new(file)
                 .lines()
+                // A line that is not valid UTF-8 (a record torn inside a
+                // multi-byte character, or garbage) only invalidates itself;
+                // stop at real I/O errors.
+                .filter(|line| !matches!(line, Err(e) if e.kind() == ErrorKind::InvalidData))
                 .map_while(std::result::Result::ok)
                 .filter_map(|entry| {
                     let entry_str = match entry.split('\t').collect::<Vec<&str>>()[..] {
